@@ -246,6 +246,10 @@ func (r *router) Route(method, routePath string, handlers []Handler) *Route {
 
 		routePath = groupPath + routePath
 		handlers = append(hs, handlers...)
+	} else {
+		// Copy to avoid wrapping the caller's slice in place: the same slice is
+		// registered again by AutoHead and Routes, which would wrap it once more.
+		handlers = append(make([]Handler, 0, len(handlers)), handlers...)
 	}
 
 	validateAndWrapHandlers(handlers, r.handlerWrapper)
